@@ -269,7 +269,8 @@ Section Sorts.
   Theorem sort_sound_all : forall e, PS e.
   Proof.
     induction e as [x | l IH] using sexp_ind'; [apply sort_leaf|].
-    intros idx s' s Hs Ht. unfold get_sort in Hs. rewrite sort_aux_T in Hs.
+    intros idx s' s Hs Ht. unfold get_sort in Hs.
+    destruct (has_comment_operand (T l)); [discriminate|]. rewrite sort_aux_T in Hs.
     destruct (is_bv_const (T l)) eqn:Ec.
     { destruct (Smtlib.bv_width I (T l)) as [w|] eqn:Ew; [|discriminate]. injection Hs as <-.
       pose proof (bv_const_width_nonneg I (T l) w Ec Ew) as H0.
